@@ -3,5 +3,5 @@
 S=$1; P=$2; shift 2
 M=/tmp/vseed.$$; rm -rf $M; mkdir -p $M; cp -r /repo/src $M/src
 (cd $M && patch -p1 -s < /verif/seeded/$S/patch.diff) || { echo "PATCH FAILED $S"; rm -rf $M; exit 3; }
-VERIF_REPO=$M /verif/check $P quick "$@" 2>&1 | grep "VIOLATION\|quick:\|UNDECIDED" | cut -c1-220 | sed "s/^/[$S $P] /"
+VERIF_REPO=$M /verif/check $P ${TIER:-quick} "$@" 2>&1 | grep "VIOLATION\|quick:\|thorough:\|UNDECIDED" | cut -c1-220 | sed "s/^/[$S $P] /"
 rm -rf $M
